@@ -321,8 +321,15 @@ def reaches_exec(ctx, body, depth=0, seen=None):
         return True
     for c in body.calls.values():
         cb = ctx.F.callee_body(c)
-        if cb is not None and reaches_exec(ctx, cb, depth + 1, seen):
-            return True
+        if cb is not None:
+            if reaches_exec(ctx, cb, depth + 1, seen):
+                return True
+        elif c.trait and c.trait.startswith('pie::'):
+            # dynamic dispatch on one of pie's own object-safe traits (e.g. the consistency check of a require dependency, which makes the
+            # required task consistent and may execute it): any implementation in pie may be the target
+            for x in ctx.F.callee_candidates(c):
+                if x.crate == 'pie' and not x.is_test_code() and reaches_exec(ctx, x, depth + 1, seen):
+                    return True
     return False
 
 
@@ -395,7 +402,18 @@ def rule_req(ctx):
         ret = body.orig_local(0)
         mcs = [body.calls[o.key] for o in ret if o.kind == 'call' and not o.path]
         if len(ret) != 1 or len(mcs) != 1:
-            R.undecided('REQ-ret', key, 'the returned value does not originate in a single call: %s' % body.describe_origins(ret), ctx.where(body), props=('C09', 'C17', 'C01'))
+            R.undecided('REQ-ret', key, 'the returned value does not originate in a single call: %s' % body.describe_origins(ret), ctx.where(body), props=('C09', 'C17', 'C01', 'C08'))
+            # the order rule can still be decided: every call that can (transitively, also through pie's own dyn traits) execute a task must
+            # come after the reserved edge
+            infc = ctx.infeasible(body, assume_cur=True)
+            res_blocks = blocks_with_assuming(ctx, ev_reserve, body)
+            xs = [c for c in body.calls.values() if not body.blocks[c.bb]['cleanup'] and F.callee_body(c) is not None and reaches_exec(ctx, F.callee_body(c))]
+            w = None
+            for c in xs:
+                w = w or body.must_before(c.bb, ctx.both(infc, lambda n: n in res_blocks))
+            R.ob('REQ-reserve', key, w is None and bool(xs), 'a reserved require edge is added (and a cycle aborts) before the required task can execute' if w is None and xs
+                 else 'a call that can execute tasks is reachable without reserving the require edge first (a cycle would recurse):\n' + (body.fmt_path(w) if w else ''),
+                 ctx.where(body), props=('C07', 'C05', 'C20'))
             continue
         mc = mcs[0]
         mcb = F.callee_body(mc)
